@@ -30,7 +30,10 @@ class PCN(Sampler):  # Refactor to Proposal-based sampler?
     def step(self):
         # propose state
         xi = self.prior.sample(1).flatten()   # sample from the prior
-        x_star = np.sqrt(1-self.scale**2)*self.current_point + self.scale*xi   # PCN proposal
+        # PCN proposal: the autoregressive step acts on the deviation from the prior mean,
+        # which makes the proposal reversible with respect to the prior
+        mean = self.prior.mean
+        x_star = mean + np.sqrt(1-self.scale**2)*(self.current_point - mean) + self.scale*(xi - mean)
 
         # evaluate target
         loglike_eval_star =  self._loglikelihood(x_star) 
